@@ -1684,8 +1684,10 @@ class LSCycles(Command):
             yield x
 
     def _as_str(self) -> str:
+        # An nrf value of zero has to be written if nextra follows, otherwise nextra would become nrf:
+        nrf = self._nrf if (self._nrf or self._nextra != '') else ''
         return '{} {} {} {}'.format('CGLS' if self.cgls else 'L.S.', self._cycles,
-                                    self._nrf if self._nrf else '', self._nextra if self._nextra else '').strip()
+                                    nrf, self._nextra if self._nextra != '' else '').strip()
 
     def __repr__(self) -> str:
         return self._as_str()
